@@ -17,6 +17,7 @@ class FCfg:
         self.refs = True          # specification / abstract_origin chains
         self.import_compile_units = True
         self.line_tables = True
+        self.long_chains = 0.0    # chance of an extra unit holding one chain of 15-40 links (C06 sets it)
         self.bulk = 0.2           # chance of a unit padded with a long string (offsets beyond 0x400 / 0x10000)
         self.versions = (2, 3, 4, 5)
         self.shared_abbrevs = 0.4
@@ -209,6 +210,18 @@ class ForestGen:
             u = make_unit(k)
             if k == "partial":
                 partial_units.append(u)
+        if cfg.long_chains and self.chance(cfg.long_chains):
+            # "chains of any length": one unit whose DIEs form a single specification / abstract_origin chain of
+            # 15..40 links, the attributes sitting at its far end
+            n = self.r.choice([15, 16, 17, 18, 25, 40])
+            far = Die(TAG["subprogram"], [Attr(AT["name"], FORM["string"], b"far"), Attr(AT["decl_line"], FORM["data1"], 9),
+                                          Attr(AT["external"], FORM["flag"], 1)])
+            chain = [far]
+            for k in range(n):
+                chain.append(Die(TAG["subprogram"], [Attr(AT[self.r.choice(["specification", "abstract_origin"])],
+                                                          FORM[self.r.choice(["ref4", "ref_udata", "ref4"])], chain[-1])]))
+            units.append(Unit(Die(TAG["compile_unit"], [Attr(AT["name"], FORM["string"], b"chain.c")], chain), self.r.choice(cfg.versions)))
+            self.label("long-chain")
         f = Forest(units)
         if cfg.line_tables and self.chance(0.6):
             # every unit gets a line table of its own with files named after the unit, and some of its DIEs a
